@@ -87,6 +87,7 @@ pub static DRIVERS: &[Driver] = &[
     Driver { name: "aat", run: crate::drivers4::aat_driver },
     Driver { name: "raw", run: crate::drivers4::raw_driver },
     Driver { name: "sparsebits", run: crate::sparsebits::sparsebits_driver },
+    Driver { name: "psblend", run: crate::capsweep::psblend_driver },
 ];
 
 pub fn find(name: &str) -> Option<usize> {
